@@ -11,7 +11,7 @@ Record kpayload := { y_id : option bytes; y_data : dimage }.
 Record kcfg := {
   k_nil : bool;                 (* a nil *FormatterFilter *)
   k_source : option bytes; k_schema : option bytes; k_format : cformat;
-  k_pred : N;                   (* 0 absent 1 true 2 false 3 error *)
+  k_pred : N;                   (* 0 absent 1 true 2 false, anything else: an error *)
   k_signer : N;                 (* 0 absent 1 succeeds 2 fails 3 succeeds with an empty result *)
   k_tag : bytes;                (* prefix of the harness signer's result *)
   k_types : list bytes }.
